@@ -128,6 +128,7 @@ type Sim struct {
 	ansQ  []*UpReq       // UPF-initiated requests not yet answered by an SMF
 	actNo int
 
+	c11carriers map[string]bool
 	statesSeen map[string]bool
 	faultHit   map[uint64]bool
 }
